@@ -125,6 +125,7 @@ def declare(reg):
             "mgmt_task": "opaque:Task",
             # ghost: the committed row of this mailbox in sqlite (A-DB), decoded
             "g_db_exists": "bool",
+            "g_db_seqs": "dict[str,set[int]]",
             "g_db_uid_vv": "int",
             "g_db_next_uid": "int",
             "g_db_uids": "list[int]",
